@@ -278,7 +278,11 @@ package reflect
 //@ const MAXIN = 1099511627776
 //@ const MAXALLOC = 288230376151711744
 
+// C05 (no blow-up): every request is for cnt objects of esz bytes each, and cnt does not exceed rem, the
+// number of input bytes the caller has in hand when it asks (cnt, esz, rem are bound at each call site)
 //@ func (d *tDecoder) Malloc(n int, align int, abiType uintptr) (ret unsafe.Pointer)
+//@   ghost cnt Int, esz Int, rem Int
+//@   requires c05_alloc: n == cnt * esz && cnt <= rem
 //@   requires d != nil && spanInv(&d.s) && 0 <= n && n <= MAXALLOC && isAlign(align)
 //@   modifies fields(&d.s), $brk
 //@   ensures spanInv(&d.s) && ret != nil && old($brk) <= $brk
@@ -294,6 +298,9 @@ package reflect
 //@   ghost sbase Int, fld *tField, wid Int
 //@   requires c03_slot: fld != nil && fld.ID == wid && t == fld.Type && p == sbase + fld.Offset
 //@   requires d != nil && spanInv(&d.s) && wfT(t) && p != nil
+//@   call Malloc ghost cnt = 1
+//@   call Malloc ghost esz = t.V.Size
+//@   call Malloc ghost rem = 1
 //@   requires c06_dest: destOK(d, p, t.Size)
 //@   ensures c06_dest: destOK(d, ret, slotSize(t))
 //@   ensures c06_ptr: t.IsPointer ==> ret % t.V.Align == 0 && (old($brk) <= ret || (d.s.b == old(d.s.b) && old(d.s.b) + old(d.s.p) <= ret && ret + t.V.Size <= d.s.b + d.s.p))
@@ -519,6 +526,14 @@ package reflect
 //@   entry ghost $k0 = 0
 //@   entry ghost $v0 = 0
 //@   entry ghost $e0 = 0
+//@   call Malloc ghost rem = len(b)
+//@   call Malloc ghost cnt = l
+//@   call Malloc#0 ghost esz = 1
+//@   call Malloc#1 ghost esz = kt.V.Size
+//@   call Malloc#2 ghost esz = vt.V.Size
+//@   call Malloc#3 ghost esz = et.Size
+//@   call Malloc#4 ghost esz = et.V.Size
+//@   call MakeMapWithSize ghost rem = len(b) - 6
 //@   after Malloc#1 ghost $k0 = res_ret
 //@   after Malloc#2 ghost $v0 = res_ret
 //@   after Malloc#4 ghost $e0 = res_ret
